@@ -754,6 +754,57 @@ KF_AOD = 'C11/accuracy_on_data-reference-overflow'
 KF_ALS = 'C11/als-adaptive-use_stab-raises'
 
 
+def _design(rr, name, d):
+    """rank-deficient sample designs for the functional fitting routines (points in [-1, 1]^d)"""
+    P = np.array([[rr.choice([-1., -0.5, 0., 0.5, 1.]) for _ in range(d)] for _ in range(3)])
+    if name == 'three_points':          # fewer distinct points than basis functions (n = 4)
+        return P
+    if name == 'repeated':
+        return np.vstack([P[:2]] * 4)
+    if name == 'one_point':
+        return np.array([[0.5] * d] * 3)
+    Q = np.array([[rr.uniform(-1., 1.) for _ in range(d)] for _ in range(9 if name == 'const_coord' else 12)])
+    if name == 'const_coord':           # one coordinate never varies
+        Q[:, rr.randrange(d)] = 0.25
+    return Q
+
+
+def check_regfit(tn, what, arg):
+    """fitting routine with its regularisation / cut-off parameter at the boundary on a rank-deficient design:
+    a well-formed finite tensor, no exception"""
+    inp = dict(routine='regfit', what=what, arg=arg)
+    rr = C.Rng(arg['seed'])
+    d, n = arg['d'], arg['n']
+    kw = dict(arg.get('kw', {}))
+    try:
+        if what in ('anova_func', 'als_func'):
+            X = _design(rr, arg['design'], d)
+            y = {'zero': np.zeros(len(X)), 'constant': np.full(len(X), 2.)}.get(arg['kind'])
+            if y is None:
+                y = 1. + X.sum(axis=1)
+            if what == 'anova_func':
+                Z = tn.anova_func(X, y, n, **kw)
+            else:
+                Z = tn.als_func(X, y, tn.rand([n] * d, 2, seed=1), nswp=2, info={}, **kw)
+            ns = [n] * d
+        elif what == 'func_int_general':
+            pts = {'two_points': np.array([-1., 1.]), 'repeated': np.array([0.5, 0.5, 0.5]),
+                   'three_points': np.array([-1., 0., 1.])}[arg['design']]
+            Y = tn.const([len(pts)] * d, 0.) if arg['kind'] == 'zero' else tn.rand([len(pts)] * d, 2, seed=arg['seed'] % 1000)
+            Z = tn.func_int_general(Y, [pts] * d, lambda x: tn.func_basis(x, n), **kw)
+            ns = [n] * d
+        else:
+            raise KeyError(what)
+    except Exception as e:  # noqa
+        return dict(what=f'{what} raised on a rank-deficient design with its regularisation at the boundary: {e!r}'[:300], input=inp)
+    w = wf_shape(Z, ns)
+    if w:
+        return dict(what=f'{what} returned an ill-formed tensor: {w}', input=inp)
+    if not finite_tt(Z):
+        return dict(what=f'{what} returned non-finite entries on a rank-deficient design', input=inp)
+    return None
+
+
 def check_als_adaptive_stab(tn, ns, kind, seed, r):
     """rank-adaptive als (r given) with use_stab=True: expected a well-formed finite tensor.  The AttributeError raised
     because orthogonalize(Y, 0, use_stab) returns the pair (Z, p) is the known finding KF_ALS; any other exception or a
@@ -1212,6 +1263,8 @@ def _replay_one(tn, inp):
         return check_accuracy(tn, tt_of_json(inp['Y']), tt_of_json(inp['Y2']))
     if r == 'accuracy_on_data':
         return check_aod(tn, tt_of_json(inp['Y']), inp['I'], inp['y'])
+    if r == 'regfit':
+        return check_regfit(tn, inp['what'], inp['arg'])
     if r == 'als_adaptive_stab':
         return check_als_adaptive_stab(tn, inp['ns'], inp['kind'], inp['seed'], inp['r'])
     if r == 'size1':
@@ -1431,6 +1484,27 @@ def search(R, ctx, deep, hints):
     n_eval += 2
     add(check_fit(tn, 'als', [3, 2], 'constant', 7, dict(r=2, nswp=2, vld_scale=1e200)))
     add(check_fit(tn, 'cross', [3, 2], 'constant', 7, dict(r=1, nswp=2, m=200, vld_scale=1e200)))
+    # 4h. every functional fitting routine with its regularisation / cut-off at the boundary (0., tiny, None, default) on
+    #     rank-deficient designs: repeated samples, fewer distinct points than unknowns, a constant coordinate, one point
+    for d_ in (2, 3):
+        for design in ('three_points', 'repeated', 'one_point', 'const_coord', 'generic'):
+            for kind in ('zero', 'constant', 'generic'):
+                sd_ = rng.randrange(10 ** 6)
+                for n_ in (1, 2, 4):
+                    for kw in (dict(), dict(lamb=0.), dict(lamb=1e-300)):
+                        n_eval += 1
+                        add(check_regfit(tn, 'anova_func', dict(d=d_, n=n_, design=design, kind=kind, seed=sd_, kw=kw)))
+                for n_ in (2, 4):
+                    for kw in (dict(), dict(lamb=0.), dict(lamb=None)):
+                        n_eval += 1
+                        add(check_regfit(tn, 'als_func', dict(d=d_, n=n_, design=design, kind=kind, seed=sd_, kw=kw)))
+        for design in ('two_points', 'repeated', 'three_points'):
+            for kind in ('zero', 'generic'):
+                for n_ in (1, 2, 4):
+                    for kw in (dict(), dict(rcond=0.), dict(rcond=None)):
+                        n_eval += 1
+                        add(check_regfit(tn, 'func_int_general', dict(d=d_, n=n_, design=design, kind=kind,
+                                                                      seed=rng.randrange(10 ** 6), kw=kw)))
     # 4g. fixed regression cases of the known finding C11/als-adaptive-use_stab-raises, and the same flag off (must work)
     for ns_, kind_, r_ in (([3, 3, 3], 'rank1', 2), ([3, 2], 'constant', 2), ([2, 1, 3], 'zero', 3)):
         n_eval += 2
